@@ -208,13 +208,13 @@ Fixpoint wrefl (ty : goty) (v : goval) {struct v} : out bytes :=
 
 Definition byte_of (v : goval) : N := match v with VN n => n | _ => 0 end.
 
-(** Writer.Write(v): the type switch first (T and *T for the twelve unnamed basic types, []byte and
-    *[]byte), writeReflect otherwise.  [*val] on a typed nil pointer is a nil dereference; only *[]byte is
-    nil-checked. *)
+(** Writer.Write(v): first, unless v is a *[]byte, a nil pointer of any type is an error ("cannot write nil
+    pointer"); then the type switch (T and *T for the twelve unnamed basic types, []byte and *[]byte — a nil
+    *[]byte is written as length 0), writeReflect otherwise. *)
 Definition write (ty : goty) (v : goval) : out bytes :=
   match ty with
   | TBasic b => wprim b v
-  | TPtr (TBasic b) => match v with VNil => OPanic WNilDeref | VPtr x => wprim b x | _ => OIll end
+  | TPtr (TBasic b) => match v with VNil => OErr EInvalid | VPtr x => wprim b x | _ => OIll end
   | TSlice false (TBasic BU8) =>
       match v with VNil => OOk (put_lp4 []) | VList l => OOk (put_lp4 (map byte_of l)) | _ => OIll end
   | TPtr (TSlice false (TBasic BU8)) =>
@@ -280,8 +280,8 @@ Fixpoint rd_elems (rd : bytes -> M (goval * bytes)) (fuel : nat) (n : N) (bs : b
 
 (** Reader.Read(&x) for x of type [ty] (a non-nil pointer to an addressable variable).
     *[]byte: ReadBytesWithLength(4) — bounds check first, then one copy.
-    readReflect: slice = uint32 length, reflect.MakeSlice(length) BEFORE any element is read, then the
-    elements; array = temporary, uint32 length that must equal the array length, elements; struct =
+    readReflect: slice = uint32 length, rejected with "unexpected EOF" when it exceeds the number of
+    remaining bytes, then reflect.MakeSlice(length), then the elements; array = temporary, uint32 length that must equal the array length, elements; struct =
     temporary, the addressable exported fields in order (the others keep the zero value of the temporary);
     everything else (named basic types, int, uint, pointers, interfaces, maps ...) is an error. *)
 Fixpoint read (ty : goty) (bs : bytes) {struct ty} : M (goval * bytes) :=
@@ -293,6 +293,8 @@ Fixpoint read (ty : goty) (bs : bytes) {struct ty} : M (goval * bytes) :=
       else
         bindM (liftR (rd_u32 bs)) (fun p =>
           let n := fst p in let t := snd p in
+          if N.of_nat (length t) <? n then failM EEOF                   (* int64(length) > RemainingSize(): before allocating *)
+          else
           tick (n * tsize e, 0)                                         (* reflect.MakeSlice(type, n, n) *)
             (if wire0 e then (OOk (VList (repeat (zero e) (N.to_nat n)), t), (0, n))     (* n iterations, no input consumed *)
              else bindM (rd_elems (read e) (S (length t)) n t) (fun q => ret (VList (fst q), snd q))))
@@ -350,11 +352,8 @@ Inductive target : Type :=
 Definition read_call (tg : target) (bs : bytes) : out (goval * bytes) :=
   match tg with
   | TgtVar ty => fst (read ty bs)
-  | TgtNilPtr (TBasic b) =>    (* the type switch matches; the primitive is read; then [*ptr = val] *)
-      obind (fst (rprim b bs)) (fun _ => OPanic WNilDeref)
-  | TgtNilPtr (TSlice false (TBasic BU8)) => obind (fst (read (TSlice false (TBasic BU8)) bs)) (fun _ => OPanic WNilDeref)
-  | TgtNilPtr _ => OErr EInvalid          (* readReflect: "must pass a non-nil pointer" *)
-  | TgtNonPtr => OErr EInvalid
+  | TgtNilPtr _ => OErr EInvalid          (* Read: reflect.ValueOf(v) is a nil pointer: "must pass a non-nil pointer" *)
+  | TgtNonPtr => OErr EInvalid            (* readReflect: not a pointer *)
   end.
 
 (** ** round-trip vocabulary *)
@@ -368,13 +367,16 @@ Fixpoint supported (ty : goty) : bool :=
   | _ => false
   end.
 
-(** values whose lengths fit the uint32 length prefixes *)
+(** values whose lengths fit the uint32 length prefixes, and whose slices of elements that occupy no bytes
+    on the wire are empty (the reader rejects a slice length above the number of remaining bytes, so such a
+    slice reads back only if enough unrelated bytes happen to follow it) *)
 Fixpoint fits (ty : goty) (v : goval) {struct v} : bool :=
   match v with
   | VS s => N.of_nat (length s) <? 4294967296
   | VList l =>
       match ty with
       | TSlice _ e => (N.of_nat (length l) <? 4294967296)
+                      && (negb (wire0 e) || (N.of_nat (length l) =? 0))
                       && (fix all (l : list goval) : bool := match l with [] => true | x :: r => fits e x && all r end) l
       | TArray _ e => (fix all (l : list goval) : bool := match l with [] => true | x :: r => fits e x && all r end) l
       | _ => true
@@ -415,19 +417,27 @@ Fixpoint norm (ty : goty) (v : goval) {struct v} : goval :=
   | _ => v
   end.
 
-(** types without a reflective slice: every loop count and every allocation is fixed by the type, except
-    string / []byte payloads which are bounds-checked against the input first *)
-Fixpoint static_ty (ty : goty) : bool :=
+(** no slice whose elements occupy no bytes on the wire (in exported positions) *)
+Fixpoint lin_ty (ty : goty) : bool :=
   match ty with
-  | TSlice named e => negb named && (match e with TBasic BU8 => true | _ => false end)
-  | TArray _ e => static_ty e
-  | TStruct fs => (fix go (fs : list (bool * goty)) : bool := match fs with [] => true | (ex, t) :: r => (negb ex || static_ty t) && go r end) fs
+  | TSlice _ e => negb (wire0 e) && lin_ty e
+  | TArray _ e => lin_ty e
+  | TStruct fs => (fix go (fs : list (bool * goty)) : bool := match fs with [] => true | (ex, t) :: r => (negb ex || lin_ty t) && go r end) fs
   | _ => true
   end.
-(** the type-dependent constant: temporaries and fixed loop counts of a static type *)
-Fixpoint kconst (ty : goty) : N :=
+(** the constants of the linear bound: [kK ty] the input-independent part (temporaries, fixed loop counts),
+    [kA ty] the factor per input byte *)
+Fixpoint kK (ty : goty) : N :=
   match ty with
-  | TArray n e => n * tsize e + n * (1 + kconst e)
-  | TStruct fs => tsize ty + (fix go (fs : list (bool * goty)) : N := match fs with [] => 0 | (ex, t) :: r => (if ex then kconst t else 0) + go r end) fs
+  | TSlice _ e => kK e + 1
+  | TArray n e => n * tsize e + n + kK e + 1
+  | TStruct fs => tsize ty + (fix go (fs : list (bool * goty)) : N := match fs with [] => 0 | (ex, t) :: r => (if ex then kK t else 0) + go r end) fs
   | _ => 0
+  end.
+Fixpoint kA (ty : goty) : N :=
+  match ty with
+  | TSlice _ e => 2 + tsize e + kA e + kK e + 1
+  | TArray _ e => kA e + kK e + 1
+  | TStruct fs => (fix go (fs : list (bool * goty)) : N := match fs with [] => 0 | (ex, t) :: r => (if ex then kA t else 0) + go r end) fs
+  | _ => 2
   end.
